@@ -177,8 +177,11 @@ Reset ==
   /\ Lidx' = [p \in Party |-> 0] /\ Lhtlc' = [p \in Party |-> 0]
   /\ Ridx' = [p \in Party |-> 0] /\ Rhtlc' = [p \in Party |-> 0]
   /\ Lmod' = [p \in Party |-> {}] /\ Rmod' = [p \in Party |-> {}]
-  /\ LC' = [p \in Party |-> <<InitCommit>>] /\ RC' = [p \in Party |-> <<InitCommit>>]
-  /\ disk' = [p \in Party |-> InitDisk]
+  /\ LET poor == IF "poor" \in DOMAIN Trace[l] THEN Trace[l].poor ELSE 0
+         o == Trace[l].opener IN
+       /\ LC' = [p \in Party |-> <<InitCommitOf(p, o, poor)>>]
+       /\ RC' = [p \in Party |-> <<InitCommitOf(p, o, poor)>>]
+       /\ disk' = [p \in Party |-> InitDiskOf(p, o, poor)]
   /\ net' = [p \in Party |-> <<>>]
   /\ phase' = [p \in Party |-> "run"]
   /\ nadds' = [p \in Party |-> 0] /\ ndisc' = 0
